@@ -237,6 +237,25 @@ class Item:
         return []
 
 
+class Fixed(Item):
+    """Render an item with the default spelling only (it contributes no choice sites)."""
+
+    def __init__(self, item):
+        self.item = item
+
+    def spec(self, st, site):
+        return self.item.spec(Style(None), site)
+
+    def contains(self, st, site):
+        return self.item.contains(Style(None), site)
+
+    def records(self, path):
+        return self.item.records(path)
+
+    def __getattr__(self, name):
+        return getattr(self.__dict__["item"], name)
+
+
 class VarItem(Item):
     def __init__(self, var):
         self.var = var
@@ -597,8 +616,8 @@ class Unit:
         out.append("  " + st.kw("implicit none"))
         n_enum = 0
         for i, it in enumerate(self.items):
-            if isinstance(it, Enum):
-                it.index = n_enum
+            if isinstance(it, Enum) or isinstance(getattr(it, "item", None), Enum):
+                (it if isinstance(it, Enum) else it.item).index = n_enum
                 n_enum += 1
             out += ["  " + l for l in it.spec(st, f"{site}:item{i}")]
         out += ["  " + b for b in self.body]
